@@ -52,8 +52,9 @@ func onceClosures(c *core.Ctx) map[*ssa.Function]string {
 	return out
 }
 
-func c11once(c *core.Ctx) {
-	const R = "C11.once"
+func c11once(c *core.Ctx) { c11onceAs(c, "C11.once") }
+
+func c11onceAs(c *core.Ctx, R string) {
 	c.Rule(R, "(a) the result fields of ErrOnce / ErrOnceWithValue are stored only inside the closure handed to once.Do and loaded only after the once.Do call of the same method; (b) the lazily built fields of the schema objects (JSchema.Inner, JSchema.ASTNode, RSchema.pattern/RE, Enum.values, Document state) are stored only in functions that run exclusively under a once closure or in constructors; (c) package-level lazily built singletons are stored only inside a once closure")
 	c.Floor(R, 8)
 	oc := onceClosures(c)
